@@ -10,7 +10,7 @@ import os
 import subprocess
 from fractions import Fraction
 
-from common import ROOT, WORK, REPLAYS, ensure_dir, env, log
+from common import ROOT, WORK, REPLAYS, REPO, ALT, ensure_dir, env, log
 
 BIN_DIR = os.path.join(WORK, "replay-target")
 _proc = None
@@ -18,7 +18,16 @@ _proc = None
 
 def build():
     cmd = ["cargo", "build", "--offline"]
-    p = subprocess.run(cmd, cwd=os.path.join(ROOT, "replay"), env=env({"CARGO_TARGET_DIR": BIN_DIR}),
+    crate = os.path.join(ROOT, "replay")
+    if ALT:
+        import shutil
+        alt = os.path.join(ensure_dir(WORK), "replay")
+        shutil.rmtree(alt, ignore_errors=True)
+        shutil.copytree(crate, alt, ignore=shutil.ignore_patterns("target"))
+        t = open(os.path.join(alt, "Cargo.toml")).read().replace('"/repo/', '"' + REPO.rstrip("/") + "/")
+        open(os.path.join(alt, "Cargo.toml"), "w").write(t)
+        crate = alt
+    p = subprocess.run(cmd, cwd=crate, env=env({"CARGO_TARGET_DIR": BIN_DIR}),
                        stdout=subprocess.PIPE, stderr=subprocess.STDOUT, text=True)
     if p.returncode != 0:
         raise RuntimeError("native replay helper does not build against /repo:\n" + p.stdout[-3000:])
